@@ -33,7 +33,7 @@ SPEC = {
              "cases: every (start, len) in 0..14 x 0..14 on payloads of 0..12 bytes/digits per function, plus 2^k magnitudes; "
              "real-FS cases: escape attempts via every spelling; non-trivial = graph with >= 3 files and >= 1 non-trivial "
              "spelling, or a range case at/over a boundary, or an escape attempt that was rejected; distinct = distinct job"),
-    "monitors": ["expansion-model", "path-model", "range-exact", "confinement-sentinel", "confinement-strace"],
+    "monitors": ["operand-inclusion-relative-to-instruction", "expansion-model", "path-model", "range-exact", "confinement-sentinel", "confinement-strace"],
     "min_nontrivial": {"quick": 1500, "thorough": 30000},
     "assumptions": ["recording file server keys files by exact project path, as FileServerMock does"],
 }
@@ -324,6 +324,66 @@ def real_case(ctx, rng, use_strace):
         shutil.rmtree(outer, ignore_errors=True)
 
 
+def operand_case(ctx, rng, worker):
+    """Inclusion functions inside *instruction operands*: the path is relative to the file that contains the
+    instruction, not to the file that defines the rule (or sub-rule) the operand is matched by. A data file of the same
+    name sits in every directory with different content, so the emitted bytes tell which one was read."""
+    dirs = rng.sample(["", "lib/", "src/", "src/deep/", "inc/"], 3)
+    rules_dir, code_dir, other_dir = dirs
+    fn = rng.choice(["incbin", "incbin", "incbinstr", "inchexstr"])
+    def content(tag):
+        b = bytes([0x10 + tag, 0x20 + tag])
+        if fn == "incbin":
+            return b
+        if fn == "inchexstr":
+            return b.hex().encode()
+        return "".join("{:08b}".format(x) for x in b).encode()
+    files = {}
+    for k, d in enumerate(dirs):
+        files[d + "data.bin"] = content(k + 1)
+    files[rules_dir + "cpu.asm"] = ("#subruledef operand\n{\n    imm {v} => 0x00 @ v`16\n    [{a}] => 0x01 @ a`16\n    [{a}], {o: inner} => 0x02 @ a`16 @ o\n}\n"
+                                   "#subruledef inner\n{\n    plus {w} => 0x7 @ w`16\n}\n"
+                                   "#ruledef\n{\n    raw {v} => 0xb0 @ v`16\n    ld {o: operand} => 0xa0 @ o\n    st {x: u8}, {o: operand} => 0xc0 @ x @ o\n}\n")
+    call = '%s("data.bin")' % fn
+    lines, want = [], ""
+    mine = content(dirs.index(code_dir) + 1)
+    val = mine.hex() if fn == "incbin" else mine.decode() if fn == "inchexstr" else "%04x" % int(mine.decode(), 2)
+    for _ in range(rng.randint(2, 5)):
+        form = rng.choice(["raw", "imm", "mem", "st", "nested"])
+        if form == "raw":
+            lines.append("raw " + call); want += "b0" + val
+        elif form == "imm":
+            lines.append("ld imm " + call); want += "a000" + val
+        elif form == "mem":
+            lines.append("ld [" + call + "]"); want += "a001" + val
+        elif form == "st":
+            lines.append("st 5, [" + call + "]"); want += "c00501" + val
+        else:
+            lines.append("ld [" + call + "], plus " + call); want += "a002" + val + "7" + val
+    # hex digit count must be even for the comparison below (the `0x7` nibble makes one form odd): pad with a nibble
+    if len(want) % 2:
+        lines.append("#d4 0"); want += "0"
+    up = "../" * code_dir.count("/")
+    files[code_dir + "code.asm"] = '#include "%s%scpu.asm"\n' % (up, rules_dir) + "\n".join(lines) + "\n"
+    root = code_dir + "code.asm"
+    if rng.random() < 0.5:
+        # the instructions live in a file included from a root in yet another directory
+        root = other_dir + "root.asm"
+        files[root] = '#include "%s%scode.asm"\n' % ("../" * other_dir.count("/"), code_dir)
+    job = lib.asm_job(lib.files_json(files), roots=[root], want=["msgs"])
+    rec = worker.run(job)
+    ctx.evaluated()
+    ctx.monitor("operand-inclusion-relative-to-instruction")
+    if lib.abnormal(rec):
+        ctx.excluded += 1
+        return
+    if not lib.ok(rec) or rec["out"]["hex"] != want:
+        ctx.violation("includes", {"kind": "operand-inclusion-read-from-another-directory", "fn": fn, "ok": lib.ok(rec)}, job,
+                      {"bytes": list(bytes.fromhex(want))}, {"ok": lib.ok(rec), "hex": (rec.get("out") or {}).get("hex"), "msgs": lib.first_messages(rec)})
+    else:
+        ctx.nontrivial_case(repr(sorted(files.items())).encode())
+
+
 def shard(ctx):
     worker = ctx.worker("rel")
     rng0 = ctx.rng(ctx.shard, "ranges")
@@ -336,6 +396,8 @@ def shard(ctx):
         i += ctx.nshards
         n += 1
         include_case(ctx, rng, worker)
+        if n % 10 == 0:
+            operand_case(ctx, rng, worker)
         if n % 25 == 0:
             real_case(ctx, rng, use_strace=(n % 100 == 0) or ctx.tier == "thorough")
 
